@@ -41,7 +41,8 @@ def _cfgs(tier, rng):
             c["basis"] = str(rng.choice(["6-31g", "sto-3g", "def2-svp"], p=[0.6, 0.2, 0.2]))
             c["level"] = int(rng.integers(0, 2))
             c["mode"] = str(rng.choice(["SEP", "NPOL", "POL"], p=[0.6, 0.2, 0.2]))
-            c["evaluator"] = str(rng.choice(["rbf", "kernel", "linear", "rbf+linear"], p=[0.5, 0.2, 0.15, 0.15]))
+            c["evaluator"] = str(rng.choice(["rbf", "kernel", "linear", "rbf+linear", "kernel+subrbf", "rbf+subrbf"],
+                                            p=[0.4, 0.15, 0.1, 0.1, 0.15, 0.1]))
             c["mix"] = str(rng.choice(["pure", "xmix", "xc", "mgga"], p=[0.4, 0.3, 0.15, 0.15]))
             if fam in ("sl-ns", "sl-np", "vj-gga", "vi-gga", "vij-gga", "vk-gga") and c["mix"] == "mgga":
                 c["mix"] = "xmix"  # GGA-level CIDER only with GGA-level XC (documented restriction)
